@@ -103,12 +103,24 @@ def sites():
 
 
 def sh(cmd, cwd=None, env=None, timeout=None):
+    """runs a shell command in its own process group; on a time-out the whole group is killed (a mutant can make
+    the e2e build script - which calls generate - loop forever, and an orphan would keep cargo's lock)"""
+    import signal
+    p = subprocess.Popen(cmd, shell=True, text=True, stdout=subprocess.PIPE, stderr=subprocess.PIPE, cwd=cwd, env=env, start_new_session=True)
+    class R: pass
+    r = R()
     try:
-        return subprocess.run(cmd, shell=True, text=True, capture_output=True, cwd=cwd, env=env, timeout=timeout)
-    except subprocess.TimeoutExpired as e:
-        class R: pass
-        r = R(); r.returncode = 124; r.stdout = (e.stdout or b"").decode() if isinstance(e.stdout, bytes) else (e.stdout or ""); r.stderr = "timeout"
-        return r
+        r.stdout, r.stderr = p.communicate(timeout=timeout)
+        r.returncode = p.returncode
+    except subprocess.TimeoutExpired:
+        try:
+            os.killpg(p.pid, signal.SIGKILL)
+        except ProcessLookupError:
+            pass
+        r.stdout, r.stderr = p.communicate()
+        r.stdout = (r.stdout or "") + "\nerror: timed out"
+        r.returncode = 124
+    return r
 
 
 def run(repo, shard, nshards, budget_s):
